@@ -266,6 +266,15 @@ macro_rules! fmts { ($name:ident, $A:ty) => {
         assert!(format!("{:03x}", a) == format!("{:03x}", v)); assert!(format!("{:-^20o}", a) == format!("{:-^20o}", v));
     }
 }}
+/// zero-capacity fixed types (D12: Display built the base 10 before looking at the value, which does not fit 0 bits): every format of the empty vector is that of 0
+pub fn fmt__zero_capacity<S: Src>(s: &mut S) {
+    let _ = s.byte();
+    let a = bva::Bvf::<u8, 0>::zeros(0);
+    let b = bva::Bvf::<u64, 0>::zeros(0);
+    assert!(format!("{}", a) == "0" && format!("{}", b) == "0");
+    assert!(format!("{:b}", a) == "0" && format!("{:o}", a) == "0" && format!("{:x}", a) == "0" && format!("{:X}", a) == "0");
+    assert!(format!("{:#b}", b) == "0b0" && format!("{:#o}", b) == "0o0" && format!("{:#x}", b) == "0x0" && format!("{:+05}", b) == format!("{:+05}", 0u8));
+}
 fmts!(fmt__f82, F82);
 fmts!(fmt__f162, F162);
 fmts!(fmt__f642, F642);
